@@ -25,6 +25,16 @@ pub trait Sc:
     }
 }
 
+/// logistic function without overflow in the intermediate exponential
+pub fn stable_sigmoid(x: f64) -> f64 {
+    if x >= 0.0 {
+        1.0 / (1.0 + (-x).exp())
+    } else {
+        let e = x.exp();
+        e / (1.0 + e)
+    }
+}
+
 impl Sc for f64 {
     fn detach(self) -> f64 {
         self
@@ -46,6 +56,9 @@ impl Sc for f64 {
     }
     fn powf(self, e: f64) -> f64 {
         f64::powf(self, e)
+    }
+    fn sigmoid(self) -> f64 {
+        stable_sigmoid(self)
     }
 }
 
@@ -168,6 +181,11 @@ impl<B: Sc> Sc for Dual<B> {
             d: if e == 0.0 { B::zero() } else { B::c(e) * self.v.powf(e - 1.0) * self.d },
         }
     }
+    fn sigmoid(self) -> Dual<B> {
+        // s and s(1-s) from the value (the quotient form loses the derivative to inf/inf beyond the exponent range)
+        let sv = self.v.sigmoid();
+        Dual { v: sv, d: sv * (B::c(1.0) - sv) * self.d }
+    }
 }
 pub type D64 = Dual<f64>;
 
@@ -234,7 +252,7 @@ impl Sc for DA {
     fn sigmoid(self) -> DA {
         // the derivative s * (1 - s) is made of the terms s * 1 and s * s: for a saturated input their difference is far
         // smaller than either, and its rounding error is relative to the terms
-        let s = 1.0 / (1.0 + (-self.v).exp());
+        let s = stable_sigmoid(self.v);
         DA { v: s, a: s * (1.0 + s) * self.a }
     }
 }
